@@ -607,6 +607,8 @@ class Wrapper:
                 return Val("dtype", ty=v.ty, of=v.dtype)
             if v.kind == "mod" and v.which == "np" and n.attr == "floating":
                 return Val("obool")
+            if v.kind == "mod" and v.which == "np" and n.attr == "float32":
+                return Val("f32")
             self.err(n, "attribute not understood")
         if isinstance(n, ast.Subscript):
             v = self.ev(n.value, env)
@@ -707,6 +709,15 @@ class Wrapper:
             if kw or len(n.args) != 2 or self.ev(n.args[0], env).kind != "dtype" or self.ev(n.args[1], env).kind != "obool":
                 self.err(n, "np.issubdtype other than (array.dtype, np.floating)")
             return Val("obool")                      # only the cuda branch reads it
+        if name == "np.result_type":
+            # np.result_type(coord.dtype, np.float32): the floating dtype at least as wide as the coordinates' -- it holds the listed widths /
+            # parameters exactly as coord.dtype does for floating coordinates (and, unlike it, also for integer-typed coordinates)
+            if kw or len(n.args) != 2:
+                self.err(n, "np.result_type other than (coord.dtype, np.float32)")
+            d0, d1 = self.ev(n.args[0], env), self.ev(n.args[1], env)
+            if d0.kind != "dtype" or d0.ty != "C" or d0.of != "coord" or d1.kind != "f32":
+                self.err(n, "np.result_type other than (coord.dtype, np.float32)")
+            return Val("dtype", ty="C", of="coord", floating=True)
         if name in ("np.zeros", "np.array"):
             dt = None
             pos = list(n.args)
@@ -724,8 +735,9 @@ class Wrapper:
                 if v.kind != "shape":
                     self.err(n, "xp.zeros of something that is not a shape")
                 return Val("arr", data="np_zeros", shape=v, ty="R", dtype="input")
-            if d.kind != "dtype" or d.ty != "C" or d.of != "coord":
-                self.err(n, "xp.array whose dtype is not coord.dtype (widths / params are coordinate scalars in the loop kernels)")
+            if d.kind != "dtype" or d.ty != "C" or d.of != "coord" or not getattr(d, "floating", False):
+                self.err(n, "xp.array whose dtype is not np.result_type(coord.dtype, np.float32) (widths / params are real numbers: a bare "
+                            "coord.dtype truncates them when the coordinates are stored as integers)")
             if v.kind == "listc":
                 return Val("arr", data="(np_array1 %s)" % v.term, shape=mk_shape([seg_E(v.len)]), ty="C", dtype="coord")
             if v.kind == "wpl":
@@ -756,7 +768,7 @@ class Wrapper:
                 base = self.fresh(name)
                 sh = mk_shape(v.shape.segs, self.let(env, name, v.shape.term, node, name=base + "_sh"))
                 v = Val("arr", data=self.let(env, name, v.data, node, name=base), shape=sh, ty=v.ty, dtype=v.dtype)
-        elif v.kind in ("int", "mod", "obool"):
+        elif v.kind in ("int", "mod", "obool", "dtype"):
             pass
         else:
             self.err(node, "a value of kind %s is assigned to a variable" % v.kind)
